@@ -299,7 +299,11 @@ func (c *stepCtx) stepDecode(k int, st map[string]interface{}) string {
 		}
 		in = append([]byte{}, src...)
 	}
-	in = append(make([]byte, 0, len(in)), in...) // cap = len
+	if boolean(st, "guard") {
+		in = guardedCopy(in) // ends at an inaccessible page
+	} else {
+		in = append(make([]byte, 0, len(in)), in...) // cap = len
+	}
 	// destination
 	var dest reflect.Value
 	switch str(st, "dest", "fresh") {
